@@ -64,6 +64,15 @@ Theorem C10_record : forall M CT (parse : option M -> CT) i (seg : list (event M
 Proof. exact record_fields. Qed.
 Print Assumptions C10_record.
 
+(* Reported when its final status arrives: the callbacks made while a prefix of the stream is consumed do
+   not depend on the rest of the stream; the rest is consumed from the table the prefix left behind, and only
+   stopTestRun (stop = true) flushes what is still in progress. *)
+Theorem C10_online : forall M CT (parse : option M -> CT) (a b : list (event M)) tbl stop,
+  consume_from parse stop tbl (a ++ b)
+  = consume_from parse false tbl a ++ consume_from parse stop (tbl_after parse tbl a) b.
+Proof. exact consume_online. Qed.
+Print Assumptions C10_online.
+
 (* events with test_id None change nothing *)
 Theorem C10_none_ignored : forall M CT (parse : option M -> CT) (es : list (event M)),
   consume parse es = consume parse (filter has_id es).
